@@ -104,24 +104,42 @@ Proof.
   rewrite E2. replace (c1 * c1 * 1 + s1 * s1) with (s1 * s1 + c1 * c1) by ring. rewrite E1. ring.
 Qed.
 
-(* canonical forms of the generated closed forms: proved with ring, so that re-associated / commuted / renamed
-   arithmetic in the source leaves every later proof untouched *)
+(* canonical forms of the generated closed forms: proved by congruence + ring, so that re-associated / commuted /
+   renamed arithmetic in the source leaves every later proof untouched *)
+Ltac shape := cbv zeta; repeat (apply (f_equal2 (@pair _ _))); try ring; repeat (f_equal; try ring).
+
 Lemma geocentric2cart_spec r lat lon :
   geocentric2cart r lat lon =
   (r * cos (lat * PI / 180) * cos (lon * PI / 180), r * cos (lat * PI / 180) * sin (lon * PI / 180), r * sin (lat * PI / 180)).
-Proof. unfold geocentric2cart. cbv zeta. repeat (apply (f_equal2 (@pair _ _))); ring. Qed.
+Proof. unfold geocentric2cart. shape. Qed.
 
 Lemma geodetic2cart_spec h lat lon a e :
   geodetic2cart h lat lon a e =
   let N := a / sqrt (1 - e ^ 2 * sind lat ^ 2) in
   ((N + h) * cosd lat * cosd lon, (N + h) * cosd lat * sind lon, (N * (1 - e ^ 2) + h) * sind lat).
-Proof. unfold geodetic2cart. cbv zeta. repeat (apply (f_equal2 (@pair _ _))); ring. Qed.
+Proof. unfold geodetic2cart. shape. Qed.
+
+Lemma cart2geocentric_spec x y z :
+  cart2geocentric x y z =
+  (sqrt (x ^ 2 + y ^ 2 + z ^ 2), asin (z / sqrt (x ^ 2 + y ^ 2 + z ^ 2)) * 180 / PI, atan2 y x * 180 / PI).
+Proof. unfold cart2geocentric. shape. Qed.
+
+Lemma ellipsoid_r_geocentric_spec a e lat :
+  ellipsoid_r_geocentric a e lat =
+  if Req_EM_T e 0 then a else a * sqrt (1 - e ^ 2) / sqrt ((1 - e ^ 2) * cosd lat ^ 2 + sind lat ^ 2).
+Proof. unfold ellipsoid_r_geocentric. destruct (Req_EM_T e 0); shape. Qed.
+
+Lemma ellipsoid_r_geodetic_spec a e lat :
+  ellipsoid_r_geodetic a e lat =
+  if Req_EM_T e 0 then a
+  else a * sqrt ((1 - e ^ 2) ^ 2 * sind lat ^ 2 + cosd lat ^ 2) / sqrt (1 - e ^ 2 * sind lat ^ 2).
+Proof. unfold ellipsoid_r_geodetic. destruct (Req_EM_T e 0); shape. Qed.
 
 Lemma sph_cart_sph r lat lon : 0 < r -> -90 < lat < 90 -> -180 < lon <= 180 ->
   (let '(x, y, z) := geocentric2cart r lat lon in cart2geocentric x y z) = (r, lat, lon).
 Proof.
   intros Hr Hlat Hlon. pose proof PI_RGT_0 as Hpi.
-  rewrite geocentric2cart_spec. unfold cart2geocentric. cbv zeta.
+  rewrite geocentric2cart_spec. cbv beta iota zeta. rewrite cart2geocentric_spec.
   set (phi := lat * PI / 180). set (lam := lon * PI / 180).
   assert (Hphi : - (PI / 2) < phi < PI / 2).
   { destruct (deg_rad_range lat (-90) 90 Hlat) as [A B]. unfold phi. lra. }
@@ -151,7 +169,7 @@ Lemma cart_sph_cart x y z : x ^ 2 + y ^ 2 + z ^ 2 <> 0 ->
   (let '(r, lat, lon) := cart2geocentric x y z in geocentric2cart r lat lon) = (x, y, z).
 Proof.
   intros Hn. pose proof PI_RGT_0 as Hpi.
-  unfold cart2geocentric. cbv zeta. rewrite geocentric2cart_spec.
+  rewrite cart2geocentric_spec. cbv beta iota zeta. rewrite geocentric2cart_spec.
   set (r := sqrt (x ^ 2 + y ^ 2 + z ^ 2)).
   assert (Hr : 0 < r) by (apply sqrt_lt_R0; nra).
   assert (Hrr : r * r = x ^ 2 + y ^ 2 + z ^ 2) by (apply sqrt_sqrt; nra).
@@ -173,16 +191,16 @@ Definition rad (d : R) : R := d * PI / 180.
 Lemma tunnel_is_chord Re lat1 lon1 lat2 lon2 :
   tunnel Re lat1 lon1 lat2 lon2 = chord Re (rad lat1) (rad lon1) (rad lat2) (rad lon2).
 Proof.
-  unfold tunnel, geocentric2cart, chord, chord2, cx, cy, cz, rad. cbv zeta. f_equal. ring.
+  unfold tunnel. rewrite !geocentric2cart_spec. unfold chord, chord2, cx, cy, cz, rad. cbv beta iota zeta. f_equal. ring.
 Qed.
 
 Lemma gcd_r_is_angle lat1 lon1 lat2 lon2 r :
   great_circle_distance_r lat1 lon1 lat2 lon2 r = r * angle (rad lat1) (rad lon1) (rad lat2) (rad lon2).
-Proof. unfold great_circle_distance_r, angle, hav, rad. cbv zeta. reflexivity. Qed.
+Proof. unfold great_circle_distance_r, angle, hav, rad. shape. Qed.
 
 Lemma gcd_deg_is_angle lat1 lon1 lat2 lon2 :
   great_circle_distance_deg lat1 lon1 lat2 lon2 = angle (rad lat1) (rad lon1) (rad lat2) (rad lon2) * 180 / PI.
-Proof. unfold great_circle_distance_deg, angle, hav, rad. cbv zeta. reflexivity. Qed.
+Proof. unfold great_circle_distance_deg, angle, hav, rad. shape. Qed.
 
 Lemma chord_arc Re lat1 lon1 lat2 lon2 : 0 < Re ->
   tunnel Re lat1 lon1 lat2 lon2 = 2 * Re * sin (great_circle_distance_r lat1 lon1 lat2 lon2 Re / (2 * Re)).
@@ -278,7 +296,7 @@ Proof. unfold sind. pose proof (SIN_bound (x * PI / 180)). lra. Qed.
 Lemma on_ellipsoid_radius a e lat lon : 0 < a -> 0 <= e < 1 ->
   (let '(x, y, z) := geodetic2cart 0 lat lon a e in sqrt (x ^ 2 + y ^ 2 + z ^ 2)) = ellipsoid_r_geodetic a e lat.
 Proof.
-  intros Ha He. rewrite geodetic2cart_spec. unfold ellipsoid_r_geodetic. cbv zeta.
+  intros Ha He. rewrite geodetic2cart_spec, ellipsoid_r_geodetic_spec. cbv beta iota zeta.
   pose proof (sincos_d lat) as E1. pose proof (sincos_d lon) as E2. pose proof (sind_range lat) as Hs.
   pose proof (W_pos e (sind lat) He Hs) as HW.
   set (s := sind lat) in *. set (c := cosd lat) in *. set (sl := sind lon) in *. set (cl := cosd lon) in *.
@@ -326,10 +344,10 @@ Lemma geocentric_radius_on_ellipse a e lat : 0 < a -> 0 <= e < 1 ->
   let r := ellipsoid_r_geocentric a e lat in
   0 < r /\ (r * cosd lat) ^ 2 * (1 - e ^ 2) + (r * sind lat) ^ 2 = a ^ 2 * (1 - e ^ 2).
 Proof.
-  intros Ha He. cbv zeta. unfold ellipsoid_r_geocentric. pose proof (sincos_d lat) as E1.
+  intros Ha He. cbv zeta. rewrite ellipsoid_r_geocentric_spec. pose proof (sincos_d lat) as E1.
   destruct (Req_EM_T e 0) as [Z|NZ].
   - subst e. cbv zeta. split; [lra|]. replace (1 - 0 ^ 2) with 1 by ring.
-    replace ((1 * a * cosd lat) ^ 2 * 1 + (1 * a * sind lat) ^ 2) with (a ^ 2 * (sind lat ^ 2 + cosd lat ^ 2)) by ring.
+    replace ((a * cosd lat) ^ 2 * 1 + (a * sind lat) ^ 2) with (a ^ 2 * (sind lat ^ 2 + cosd lat ^ 2)) by ring.
     rewrite E1. ring.
   - cbv zeta. set (s := sind lat) in *. set (c := cosd lat) in *.
     assert (Hc : 0 < 1 - e ^ 2) by nra.
@@ -360,7 +378,7 @@ Proof.
   { intros Z. assert (Hxy : x ^ 2 + y ^ 2 = 0) by nra. assert (Hz : z ^ 2 = 0) by nra.
     assert (0 < a ^ 2 * (1 - e ^ 2)) by (apply Rmult_lt_0_compat; nra). rewrite Hxy, Hz in HS. lra. }
   pose proof (cart_sph_cart x y z Hn) as HC.
-  unfold cart2geocentric in *. cbv zeta in *.
+  rewrite cart2geocentric_spec in *. cbv beta iota zeta in *.
   set (r := sqrt (x ^ 2 + y ^ 2 + z ^ 2)) in *.
   set (latc := asin (z / r) * 180 / PI) in *. set (lonc := atan2 y x * 180 / PI) in *.
   split; [|exact (eq_sym HR)].
@@ -619,7 +637,7 @@ Qed.
 Lemma tunnel_triangle Re lat1 lon1 lat2 lon2 lat3 lon3 :
   tunnel Re lat1 lon1 lat3 lon3 <= tunnel Re lat1 lon1 lat2 lon2 + tunnel Re lat2 lon2 lat3 lon3.
 Proof.
-  unfold tunnel, geocentric2cart. cbv zeta.
+  unfold tunnel. rewrite !geocentric2cart_spec. cbv beta iota zeta.
   match goal with |- sqrt ((?x3 - ?x1) ^ 2 + (?y3 - ?y1) ^ 2 + (?z3 - ?z1) ^ 2) <=
                      sqrt ((?x2 - ?x1) ^ 2 + (?y2 - ?y1) ^ 2 + (?z2 - ?z1) ^ 2) + _ =>
     pose proof (norm3_triangle (x2 - x1) (y2 - y1) (z2 - z1) (x3 - x2) (y3 - y2) (z3 - z2)) as H;
@@ -634,7 +652,7 @@ Qed.
 Lemma tunnel_zero_iff Re lat1 lon1 lat2 lon2 :
   tunnel Re lat1 lon1 lat2 lon2 = 0 <-> geocentric2cart Re lat1 lon1 = geocentric2cart Re lat2 lon2.
 Proof.
-  unfold tunnel, geocentric2cart. cbv zeta. split.
+  unfold tunnel. rewrite !geocentric2cart_spec. cbv beta iota zeta. split.
   - intros H. apply sqrt_eq_0 in H; [|repeat apply Rplus_le_le_0_compat; apply pow2_ge_0].
     match type of H with (?x2 - ?x1) ^ 2 + (?y2 - ?y1) ^ 2 + (?z2 - ?z1) ^ 2 = 0 =>
       pose proof (pow2_ge_0 (x2 - x1)) as Q1; pose proof (pow2_ge_0 (y2 - y1)) as Q2; pose proof (pow2_ge_0 (z2 - z1)) as Q3;
